@@ -4,7 +4,7 @@
    possibly torn, recover = what setup_config reads back). *)
 From Coq Require Import List Bool Arith Lia.
 Import ListNotations.
-From Inf Require Import model.DiskM proofs.DiskP.
+From Inf Require Import model.DiskM proofs.DiskP proofs.DiskRunP.
 Open Scope nat_scope.
 
 (* For every consistent disk, every step (any number of new paths and deletions, accepted or
@@ -44,6 +44,50 @@ Theorem C08_live_paths_intact :
   trim (r_active rold) (rows d') = rows d.
 Proof. intros need d rold st H1 H2 H3 H4 H5 H6 H7 k t. exact (pre_crash_safe need d rold st H1 H2 H3 H4 H5 H6 H7 k t). Qed.
 Print Assumptions C08_live_paths_intact.
+
+(* ------------------------------------------------------------------ arbitrary histories
+   (proofs/DiskRunP.v).  [restart]: what the program physically does to the disk when it restarts
+   from it (trim_data_file).  [Good need d r]: the disk-side conditions above plus freshness of path
+   numbers (every row and every live path is below traj_num, rows are pairwise distinct);
+   [StepOK r st]: the step-side conditions (new paths numbered from traj_num up, replaced paths live
+   before and not after, deletions touch neither record).  An event is a completed step or a crash at
+   any effect index (torn or not) followed by a restart; [HistOK] asks every event's step to be StepOK
+   for the record current at that point (after a crash that left the old record the program does
+   some step again - not necessarily the same one). *)
+Theorem C08_crash_restart_good : forall (need : nat -> list nat) d r st k t,
+  Good need d r -> StepOK r st ->
+  let es := effects need true st in
+  let d'' := restart (crash k t d es) in
+  (k < length es /\ Good need d'' r /\ rows d'' = rows d) \/
+  (length es <= k /\ Good need d'' (rnew st) /\ rows d'' = rows d ++ map (fun pn => (pn, true)) (olds st)).
+Proof. exact crash_restart_good. Qed.
+Print Assumptions C08_crash_restart_good.
+
+(* after ANY history of completed steps, crashes and restarts: the restart file is whole and is the
+   record of the last step that took effect, every path it lists loads, the data file holds exactly
+   one complete row per path replaced by a step that took effect, in order, without duplicates, and
+   a further restart changes nothing *)
+Theorem C08_history_recovers : forall (need : nat -> list nat) evs d r,
+  Good need d r -> HistOK need r evs ->
+  let d' := run need d evs in let r' := final_rec need r evs in
+  recover need true d' = Some (r', rows d ++ hist_rows need evs) /\
+  rec d' = Some r' /\ rec_torn d' = false /\
+  (forall pn, In pn (r_active r') -> loadable need d' pn = true) /\
+  rows d' = rows d ++ hist_rows need evs /\
+  NoDup (map fst (rows d ++ hist_rows need evs)) /\
+  restart d' = d'.
+Proof. exact history_recovers. Qed.
+Print Assumptions C08_history_recovers.
+
+(* ... and a crash at any point of the next step is recovered from, as in C08_crash_recovers *)
+Theorem C08_history_crash_recovers : forall (need : nat -> list nat) evs d r st k t,
+  Good need d r -> HistOK need r evs -> StepOK (final_rec need r evs) st ->
+  let d' := run need d evs in
+  exists r' rs, recover need true (crash k t d' (effects need true st)) = Some (r', rs) /\
+    ((r' = final_rec need r evs /\ rs = rows d') \/
+     (r' = rnew st /\ rs = rows d' ++ map (fun pn => (pn, true)) (olds st))).
+Proof. exact history_crash_recovers. Qed.
+Print Assumptions C08_history_crash_recovers.
 
 (* the ORIGINAL code (in-place rewrite of restart.toml, no trimming of the data file) is
    refuted at two crash points *)
